@@ -68,13 +68,17 @@ theorem wp_unaryAtomic (table : List (List Bytes)) (t : Tree) (h : WellPrec tabl
 namespace IEEE
 open Rare.F64
 
-/-- The functions of Go's `math` package that IEEE-754 determines, by their Go name. -/
+/-- The functions of Go's `math` package the model computes, by their Go name: those IEEE-754 determines and
+    (round 4b) the logarithms as they run on amd64 (`Model/C11Log.lean`). -/
 def goMathExact (name : String) : Option (F64 → F64) :=
   if name = "Abs" then some F64.abs
   else if name = "Sqrt" then some sqrt
   else if name = "Floor" then some F64.floor
   else if name = "Ceil" then some F64.ceil
   else if name = "Round" then some roundHalfAway
+  else if name = "Log" then some Rare.C11.Log.logAsm
+  else if name = "Log10" then some Rare.C11.Log.log10
+  else if name = "Log2" then some Rare.C11.Log.log2
   else none
 
 end IEEE
